@@ -374,7 +374,7 @@ def keyOps : List String :=
 
 /-- Position of the key / key-prefix token of an op. -/
 def keyPos (op : String) : Option Nat :=
-  if keyOps.contains op || op = "pmput" || op = "query" || op = "purge" then some 2
+  if keyOps.contains op || op = "pmput" || op = "query" || op = "purge" || op = "rtgq" || op = "rtfq" then some 2
   else if op = "sub" then some 3 else none
 
 def handleToks (s : Sys) (toks : List String) : Sys × String :=
@@ -475,6 +475,23 @@ def handleToks (s : Sys) (toks : List String) : Sys × String :=
     (match parseBool sh with
      | some _ => ({ s with inj := true, store := [], sets := [] }, "ok")
      | none => (s, "bad-op"))
+  | ["rtinit", sh, _multi] =>
+    -- the provider registered under several key prefixes (`m2`..`m4`): several providers for the registry, which
+    -- serves a query above them with one goroutine each; routing is by key, so one store models them all
+    (match parseBool sh with
+     | some _ => ({ s with inj := true, store := [], sets := [] }, "ok")
+     | none => (s, "bad-op"))
+  | ["rtgq", id, p, _seed] =>
+    -- a query on the runtime database with the provider goroutines under a seeded scheduler: whatever the
+    -- interleaving, the records listed are those of the sequential filter (`registry_query_concurrent_permitted`)
+    (match s.inj, parseQuery p "-" with
+     | true, some q => s.exec id (.query q)
+     | _, _ => (s, "bad-op"))
+  | ["rtfq", id, p, _n] =>
+    -- the same query n times, free running: every repetition lists the same records
+    (match s.inj, parseQuery p "-" with
+     | true, some q => s.exec id (.query q)
+     | _, _ => (s, "bad-op"))
   | ["rtsets"] =>
     -- what the provider's `Set` received since the last `rtsets`, in order
     ({ s with sets := [] }, showRecs s.sets)
